@@ -209,7 +209,13 @@ class Machine:
         self.compiled[op["id"]] = {"env": op["env"], "q": q, "obj": c, "exc": exc, "envspec": envspec}
         obs = {"nodes": [], "end": exc or "stop", "ident": True}
         form = "module" if envspec.get("module") else "env"
-        self._compare(f"compile {q!r} on env {op['env']}", obs, {"env": self._env_golden_spec(envspec), "q": q, "entry": "compile", "form": form}, False)
+        gspec = {"env": self._env_golden_spec(envspec), "q": q, "entry": "compile", "form": form}
+        self._compare(f"compile {q!r} on env {op['env']}", obs, gspec, False)
+        if c is not None:
+            # the compiled query's own rendering: same text compiled alone gives the same query
+            mine, gold = world._safe_str(c), golden.ask(gspec).get("str")
+            if gold is not None and mine != gold:
+                self._violate("compiled-query-differs-from-solitary", f"compile {q!r} on env {op['env']}: str(query) is {mine!r}; compiled on its own it is {gold!r}")
         self.stats["compiles"] += 1
         return [q, exc]
 
